@@ -28,7 +28,8 @@
   Three pairs break the side condition "kept ⇒ nothing read is written" ON THE REAL CODE (known findings; `unsoundPairs`,
   theorem C11_unsound_pairs, witnesses C11_witness_*): a Trajectory / Lanelet has no reference to the prediction / network
   that holds it, so `prediction.trajectory.translate_rotate(…)`, `prediction.trajectory.append_state(…)` and
-  `network.find_lanelet_by_id(i).translate_rotate(…)` leave `occupancy_set` / the spatial index stale.
+  `network.find_lanelet_by_id(i).translate_rotate(…)` leave `occupancy_set` / the spatial index stale.  (In-place edits of a
+  cycle's elements were a fourth and fifth such pair until fix 233baea made the cumulative time steps validate themselves.)
 -/
 import CRModel.Basic
 import CRModel.TrafficLight
@@ -118,7 +119,7 @@ inductive Field where
   | lanIntrinsic       -- what is invariant under rigid motions: segment lengths (changes when z is dropped)
   | lanFootprint       -- the x-y footprint of the lanelet polygon (changes under motions, not when z is dropped)
   | netLaneletSet      -- which lanelets are in the network
-  | cycElements | cycOffset | cycActive
+  | cycDurations | cycStates | cycOffset | cycActive     -- the elements' durations / their states
   deriving DecidableEq, Repr, Inhabited
 
 /-- Public mutators (each is ONE method of the code, whoever holds the object it is called on). -/
@@ -135,8 +136,13 @@ inductive Mut where
   -- LaneletNetwork (lanelet.py) and the Scenario methods that delegate to it: :1790-1812, :1924-1938, :1604-1617, :1940-1969,
   -- :1971-1982, __deepcopy__ :1308-1322, __getstate__/__setstate__ :1299-1306
   | netAddLanelet | netAddFromNetwork | netRemoveLanelet | netTranslateRotate | netConvert2d | netDeepcopy | netPickle
+  | netCreateFrom         -- LaneletNetwork.create_from_lanelet_network(network): a new network from deep copies of the lanelets
+  | netReplace            -- Scenario.replace_lanelet_network / add_objects(LaneletNetwork): another network object
   -- TrafficLightCycle (traffic_light.py) setters :145-166
   | cycSetElements | cycSetOffset | cycSetActive
+  -- edits that do not go through a setter of the cycle: TrafficLightCycleElement.duration= / .state= on an element the cycle
+  -- holds (traffic_light.py:60-93), list methods on the list `cycle_elements` returns (append, pop, insert, …)
+  | elemSetDuration | elemSetState | elemsListEdit
   deriving DecidableEq, Repr, Inhabited
 
 def allItems : List Item :=
@@ -146,7 +152,8 @@ def allMuts : List Mut :=
   [.predSetShape, .predSetTrajectory, .predSetWheelbase, .predSetAssignment, .predTranslateRotate, .trajTranslateRotate,
    .trajAppendState, .obsSetInitialState, .obsSetShape, .obsTranslateRotate, .obsSetPrediction, .obsUpdateInitialState,
    .lanTranslateRotate, .lanConvert2d, .netAddLanelet, .netAddFromNetwork, .netRemoveLanelet, .netTranslateRotate,
-   .netConvert2d, .netDeepcopy, .netPickle, .cycSetElements, .cycSetOffset, .cycSetActive]
+   .netConvert2d, .netDeepcopy, .netPickle, .netCreateFrom, .netReplace, .cycSetElements, .cycSetOffset, .cycSetActive,
+   .elemSetDuration, .elemSetState, .elemsListEdit]
 
 /-- What each derived value reads. -/
 def reads : Item → List Field
@@ -156,7 +163,7 @@ def reads : Item → List Field
   | .laneletDistance => [.lanIntrinsic]
   | .laneletInnerDistance => [.lanIntrinsic]
   | .networkIndex => [.netLaneletSet, .lanFootprint]
-  | .cycleInit => [.cycElements, .cycOffset]
+  | .cycleInit => [.cycDurations, .cycOffset]
 
 /-- ONE write-set per mutator: every primary-data field the method overwrites. -/
 def writesOf : Mut → List Field
@@ -181,7 +188,12 @@ def writesOf : Mut → List Field
   | .netConvert2d => [.lanVertices, .lanIntrinsic]
   | .netDeepcopy => []
   | .netPickle => []
-  | .cycSetElements => [.cycElements]
+  | .netCreateFrom => []
+  | .netReplace => [.netLaneletSet, .lanVertices, .lanIntrinsic, .lanFootprint]
+  | .cycSetElements => [.cycDurations, .cycStates]
+  | .elemSetDuration => [.cycDurations]
+  | .elemSetState => [.cycStates]
+  | .elemsListEdit => [.cycDurations, .cycStates]
   | .cycSetOffset => [.cycOffset]
   | .cycSetActive => [.cycActive]
 
@@ -210,13 +222,16 @@ def act : Item → Mut → Action
   | .laneletPolygon, .lanConvert2d => .recompute
   | .laneletPolygon, .netTranslateRotate => .recompute
   | .laneletPolygon, .netConvert2d => .recompute
+  | .laneletPolygon, .netReplace => .recompute       -- other lanelet objects with their own caches
   | .laneletPolygon, _ => .keep
   -- Lanelet._distance / _inner_distance: reset by convert_to_2d (fix 4809ac9); kept by motions (lengths are invariant)
   | .laneletDistance, .lanConvert2d => .drop
   | .laneletDistance, .netConvert2d => .drop
+  | .laneletDistance, .netReplace => .drop
   | .laneletDistance, _ => .keep
   | .laneletInnerDistance, .lanConvert2d => .drop
   | .laneletInnerDistance, .netConvert2d => .drop
+  | .laneletInnerDistance, .netReplace => .drop
   | .laneletInnerDistance, _ => .keep
   -- LaneletNetwork spatial index: add / remove patch `_buffered_polygons` by the one entry and rebuild the tree from it;
   -- translate_rotate rebuilds everything (fix 34e39ea); deepcopy / pickle rebuild the tree from the copied buffered polygons (= keep)
@@ -224,11 +239,17 @@ def act : Item → Mut → Action
   | .networkIndex, .netAddFromNetwork => .update
   | .networkIndex, .netRemoveLanelet => .update
   | .networkIndex, .netTranslateRotate => .recompute
+  | .networkIndex, .netCreateFrom => .recompute      -- the new network stores the polygons of the copied lanelets and builds its tree
+  | .networkIndex, .netReplace => .recompute         -- the other network's own (built) index
   | .networkIndex, .lanTranslateRotate => .keep         -- UNSOUND: a lanelet the network holds cannot tell its network
   | .networkIndex, _ => .keep
   -- TrafficLightCycle._cycle_init_timesteps (fix 26cc485)
   | .cycleInit, .cycSetElements => .drop
   | .cycleInit, .cycSetOffset => .drop
+  -- the element / the list cannot tell the cycle, but the cached array validates itself against the current durations when it is
+  -- read (fix 233baea) and is derived anew if they differ: observably the slot is dropped
+  | .cycleInit, .elemSetDuration => .drop
+  | .cycleInit, .elemsListEdit => .drop
   | .cycleInit, _ => .keep
 
 structure Row where
@@ -273,12 +294,15 @@ def tokenSpec (i : Item) : Spec Store (List Nat) Inv where
 
 /-! ## TrajectoryPrediction / obstacles (token model) -/
 
-/-- Primary data of a trajectory: contents version, `initial_time_step`, number of states. -/
+/-- Primary data of a trajectory: contents version, `initial_time_step`, the `time_step`s of its states in list order
+    (the constructor only checks the first one; `append_state` only asks for a larger one: gaps are possible). -/
 structure TrajData where
   v : Nat
   t0 : Int
-  len : Nat
+  steps : List Int
   deriving DecidableEq, Repr, Inhabited
+
+def TrajData.len (d : TrajData) : Nat := d.steps.length
 
 /-- A computed `occupancy_set`: the (shape, trajectory) it was computed from. -/
 structure OccSet where
@@ -302,7 +326,7 @@ def TPred.occSet (p : TPred) : OccSet × TPred :=
 
 inductive Pred where
   | traj (p : TPred)
-  | setb (v : Nat) (t0 : Int) (len : Nat)   -- SetBasedPrediction: occupancies (version v) at steps t0 … t0+len-1; no cache
+  | setb (v : Nat) (ivs : List (Int × Int))   -- SetBasedPrediction: occupancies (version v) with their time steps / closed time intervals, in list order; no cache
   deriving DecidableEq, Repr, Inhabited
 
 /-- Answers of occupancy queries, as tokens. -/
@@ -324,11 +348,11 @@ def inRange (t0 : Int) (len : Nat) (t : Int) : Bool := t0 ≤ t && t < t0 + len
 /-- `Prediction.occupancy_at_time_step` (prediction.py:121-140) on a trajectory prediction. -/
 def TPred.occAt (p : TPred) (t : Int) : OccAns × TPred :=
   let (c, p') := p.occSet
-  (if inRange c.traj.t0 c.traj.len t then .traj c.shape c.traj.v t else .none, p')
+  (if c.traj.steps.contains t then .traj c.shape c.traj.v t else .none, p')     -- the occupancy whose state has time_step t
 
 def Pred.occAt : Pred → Int → OccAns × Pred
   | .traj p, t => let (a, p') := p.occAt t; (a, .traj p')
-  | .setb v t0 len, t => (if inRange t0 len t then .setb v t else .none, .setb v t0 len)
+  | .setb v ivs, t => (if ivs.any (fun iv => decide (iv.1 ≤ t) && decide (t ≤ iv.2)) then .setb v t else .none, .setb v ivs)
 
 /-- An entry of `DynamicObstacle.history`: the initial state (version `base`) that `update_initial_state` replaced, and the
     motions (versions of the `translate_rotate` calls on the obstacle / scenario) applied to it since, in order. -/
@@ -367,7 +391,10 @@ inductive ObsOp where
   | predSetAssignment
   | predTranslateRotate (v : Nat)
   | trajTranslateRotate (v : Nat)      -- obstacle.prediction.trajectory.translate_rotate(…)
-  | trajAppendState (v : Nat)          -- obstacle.prediction.trajectory.append_state(…)
+  | trajAppendState (v : Nat) (t : Int) -- obstacle.prediction.trajectory.append_state(state with time_step t)
+  | predSetOccupancies (v : Nat) (ivs : List (Int × Int))   -- SetBasedPrediction.occupancy_set = …, or an Occupancy of it edited in place
+  | setMeta (sig cen shp : Nat)         -- initial_signal_state= / initial_center_lanelet_ids= / initial_shape_lanelet_ids=
+  | failed (e : Err)                    -- a mutator that raises before it changes anything (wrong argument type, invalid angle, …)
   | qOcc (t : Int)
   | qState (t : Int)
   | qPredOcc (t : Int)
@@ -400,7 +427,7 @@ def TPred.move (m : Mut) (p : TPred) (v : Nat) : TPred := p.mutTraj m { p.traj w
 
 def Pred.move (m : Mut) : Pred → Nat → Pred
   | .traj p, v => .traj (p.move m v)
-  | .setb _ t0 len, v => .setb v t0 len
+  | .setb _ ivs, v => .setb v ivs
 
 /-- `obstacle.prediction = new` / `update_prediction(new)`: the slot the obstacle reads is now the one of the new object
     (with whatever that object has cached for itself) — unless the table said the old cache is kept. -/
@@ -456,12 +483,18 @@ def Obs.step (o : Obs) : ObsOp → ObsAns × Obs
     o.onTPred fun p => { p with cache := (act .occupancySet .predSetAssignment).applySimple p.derive p.cache }
   | .trajTranslateRotate v =>            -- trajectory.py:156-176 on the trajectory the prediction holds
     o.onTPred fun p => p.move .trajTranslateRotate v
-  | .trajAppendState v =>                -- trajectory.py:97-123: one more state at the end
-    o.onTPred fun p => p.mutTraj .trajAppendState { p.traj with v := v, len := p.traj.len + 1 }
+  | .trajAppendState v t =>                -- trajectory.py:97-123: one more state at the end
+    o.onTPred fun p => p.mutTraj .trajAppendState { p.traj with v := v, steps := p.traj.steps ++ [t] }
   | .predTranslateRotate v =>            -- prediction.py:207-221 (set based), :372-387 (trajectory)
     match o.pred with
     | some p => (.unit, { o with pred := some (p.move .predTranslateRotate v) })
     | none => (.err .attr, o)
+  | .predSetOccupancies v ivs =>         -- prediction.py:186-198 (setter), :50-93 (Occupancy setters / translate_rotate): nothing is cached
+    match o.pred with
+    | some (.setb _ _) => (.unit, { o with pred := some (.setb v ivs) })
+    | _ => (.err .attr, o)
+  | .setMeta sig cen shp => (.unit, { o with sig := sig, cen := cen, shp := shp })     -- obstacle.py:260-320: plain attributes
+  | .failed e => (.err e, o)
   | .qOcc t =>                           -- obstacle.py:419-426 (static), :612-625 (dynamic)
     if !o.dynamic then (.occ (.init o.initOccVal.1 o.initOccVal.2 t), o) else
     if t = o.t0 then (.occ (.init o.initOccVal.1 o.initOccVal.2 t), o) else
@@ -474,7 +507,7 @@ def Obs.step (o : Obs) : ObsOp → ObsAns × Obs
     if !o.dynamic then (.st (.init o.init), o) else
     if t = o.t0 then (.st (.init o.init), o) else
     match o.pred with
-    | some (.setb _ _ _) => (.st .none, o)
+    | some (.setb _ _) => (.st .none, o)
     | some (.traj p) =>
       if t > o.t0 then (.st (if inRange p.traj.t0 p.traj.len t then .traj p.traj.v t else .none), o)
       else (.st .none, o)
@@ -497,7 +530,7 @@ def TPred.rebuild (p : TPred) : TPred := { p with cache := none }
 
 def Pred.rebuild : Pred → Pred
   | .traj p => .traj p.rebuild
-  | .setb v t0 len => .setb v t0 len
+  | .setb v ivs => .setb v ivs
 
 def Obs.rebuild (o : Obs) : Obs := { o with initOcc := some o.freshInitOcc, pred := o.pred.map Pred.rebuild }
 
@@ -530,6 +563,13 @@ def Lan.flatten (m : Mut) (l : Lan) (v : Nat) : Lan :=
   { l' with poly := (act .laneletPolygon m).applySimple l'.geo l.poly,
             dist := (act .laneletDistance m).applySimple l'.intr l.dist,
             inner := (act .laneletInnerDistance m).applySimple l'.intr l.inner }
+
+/-- A lanelet of the network that replaces the old one: its caches are its own (what the table calls recompute / drop
+    for the caches of "the lanelets of the network"); a `keep` entry would mean the old network's caches were carried over. -/
+def Lan.replaced (l : Lan) : Lan :=
+  { l with poly := (act .laneletPolygon .netReplace).applySimple l.geo l.poly,
+           dist := match act .laneletDistance .netReplace with | .drop => l.dist | a => a.applySimple l.intr l.dist,
+           inner := match act .laneletInnerDistance .netReplace with | .drop => l.inner | a => a.applySimple l.intr l.inner }
 
 def Lan.qDist (l : Lan) : Nat × Lan :=
   match l.dist with
@@ -593,6 +633,9 @@ inductive NetOp where
   | lanConvert2d (id : Nat) (v : Nat)         -- network.find_lanelet_by_id(id).convert_to_2d()
   | deepcopy
   | pickle
+  | createFrom            -- continue on LaneletNetwork.create_from_lanelet_network(network)
+  | replace (ls : List (Nat × Lan))   -- Scenario.replace_lanelet_network(create_from_lanelet_list(ls)) / add_objects(network)
+  | failed (e : Err)      -- a mutator that raises before it changes anything
   | qFind                 -- find_lanelet_by_position / find_lanelet_by_shape: the index contents that answer
   | qPoly (id : Nat)
   | qDist (id : Nat)
@@ -660,6 +703,11 @@ def Net.step (n : Net) : NetOp → NetAns × Net
     | some l => (.unit, Net.reindex .lanConvert2d n n.buffered { n with lanelets := assocSet id (l.flatten .lanConvert2d v) n.lanelets })
   | .deepcopy => (.unit, (Net.reindex .netDeepcopy n n.buffered n).createTree)   -- lanelet.py:1308-1322 (we continue on the copy)
   | .pickle => (.unit, (Net.reindex .netPickle n n.buffered n).createTree)       -- lanelet.py:1299-1306
+  | .createFrom =>                        -- lanelet.py `create_from_lanelet_network`: deep copies added with rtree=False, then one `_create_strtree`
+    (.unit, Net.reindex .netCreateFrom n n.buffered n)
+  | .replace ls =>                        -- scenario.py `replace_lanelet_network` / `add_objects(LaneletNetwork)`
+    (.unit, Net.reindex .netReplace n n.buffered { n with lanelets := ls.map (fun p => (p.1, p.2.replaced)) })
+  | .failed e => (.err e, n)
   | .qFind =>                             -- lanelet.py:1980-2019
     match n.tree with
     | none => (.err .attr, n)
@@ -743,12 +791,28 @@ inductive CycMut where
   | setElements (es : List CR.TL.Elem)
   | setOffset (off : Int)
   | setActive (b : Bool)
+  | setDuration (i : Nat) (d : Int)          -- cycle.cycle_elements[i].duration = d
+  | setState (i : Nat) (st : Nat)            -- cycle.cycle_elements[i].state = st
+  | listEdit (es : List CR.TL.Elem)          -- cycle.cycle_elements.append(…) / pop / insert / …: the list afterwards
   deriving DecidableEq, Repr, Inhabited
 
 def CycMut.kind : CycMut → Mut
   | .setElements _ => .cycSetElements
   | .setOffset _ => .cycSetOffset
   | .setActive _ => .cycSetActive
+  | .setDuration _ _ => .elemSetDuration
+  | .setState _ _ => .elemSetState
+  | .listEdit _ => .elemsListEdit
+
+def setDurationAt : List CR.TL.Elem → Nat → Int → List CR.TL.Elem
+  | [], _, _ => []
+  | e :: r, 0, d => (e.1, d) :: r
+  | e :: r, i + 1, d => e :: setDurationAt r i d
+
+def setStateAt : List CR.TL.Elem → Nat → Nat → List CR.TL.Elem
+  | [], _, _ => []
+  | e :: r, 0, st => (st, e.2) :: r
+  | e :: r, i + 1, st => e :: setStateAt r i st
 
 /-- The cycle as an instance of the generic cell. -/
 def cycSpec : Spec Cyc (List Int) CycMut where
@@ -757,6 +821,9 @@ def cycSpec : Spec Cyc (List Int) CycMut where
     | .setElements es => { c with es := es }
     | .setOffset off => { c with off := off }
     | .setActive b => { c with active := b }
+    | .setDuration i d => { c with es := setDurationAt c.es i d }
+    | .setState i st => { c with es := setStateAt c.es i st }
+    | .listEdit es => { c with es := es }
   act := fun m => act .cycleInit m.kind
 
 abbrev CycCell := Cell Cyc (List Int)
